@@ -867,6 +867,93 @@ fn other_cases(d: Dialect) -> Vec<(String, Result<String, String>, Option<PStmt>
     v
 }
 
+// ---------------------------------------------------------------------------------------------
+// (5) builder-method variants: the families above declare types through `ColumnDef::new_with_type` and keys through
+//     one spelling; every convenience method must build the same declaration
+
+fn api_variants() -> Vec<(&'static str, Box<dyn Fn() -> TableCreateStatement>, Box<dyn Fn() -> TableCreateStatement>)> {
+    fn tbl(c: ColumnDef) -> TableCreateStatement {
+        Table::create().table(a("t")).col(c).to_owned()
+    }
+    let mut v: Vec<(&'static str, Box<dyn Fn() -> TableCreateStatement>, Box<dyn Fn() -> TableCreateStatement>)> = vec![];
+    macro_rules! ty {
+        ($name:expr, $via:expr, $ct:expr) => {
+            v.push(($name, Box::new(|| { let mut c = ColumnDef::new(a("c")); let f: fn(&mut ColumnDef) = $via; f(&mut c); tbl(c) }), Box::new(|| tbl(ColumnDef::new_with_type(a("c"), $ct)))));
+        };
+    }
+    ty!("char", |c| { c.char(); }, ColumnType::Char(None));
+    ty!("char_len", |c| { c.char_len(7); }, ColumnType::Char(Some(7)));
+    ty!("string", |c| { c.string(); }, ColumnType::String(StringLen::None));
+    ty!("string_len", |c| { c.string_len(31); }, ColumnType::String(StringLen::N(31)));
+    ty!("text", |c| { c.text(); }, ColumnType::Text);
+    ty!("tiny_integer", |c| { c.tiny_integer(); }, ColumnType::TinyInteger);
+    ty!("small_integer", |c| { c.small_integer(); }, ColumnType::SmallInteger);
+    ty!("integer", |c| { c.integer(); }, ColumnType::Integer);
+    ty!("big_integer", |c| { c.big_integer(); }, ColumnType::BigInteger);
+    ty!("tiny_unsigned", |c| { c.tiny_unsigned(); }, ColumnType::TinyUnsigned);
+    ty!("small_unsigned", |c| { c.small_unsigned(); }, ColumnType::SmallUnsigned);
+    ty!("unsigned", |c| { c.unsigned(); }, ColumnType::Unsigned);
+    ty!("big_unsigned", |c| { c.big_unsigned(); }, ColumnType::BigUnsigned);
+    ty!("float", |c| { c.float(); }, ColumnType::Float);
+    ty!("double", |c| { c.double(); }, ColumnType::Double);
+    ty!("decimal", |c| { c.decimal(); }, ColumnType::Decimal(None));
+    ty!("decimal_len", |c| { c.decimal_len(12, 3); }, ColumnType::Decimal(Some((12, 3))));
+    ty!("date_time", |c| { c.date_time(); }, ColumnType::DateTime);
+    ty!("timestamp", |c| { c.timestamp(); }, ColumnType::Timestamp);
+    ty!("timestamp_with_time_zone", |c| { c.timestamp_with_time_zone(); }, ColumnType::TimestampWithTimeZone);
+    ty!("time", |c| { c.time(); }, ColumnType::Time);
+    ty!("date", |c| { c.date(); }, ColumnType::Date);
+    ty!("year", |c| { c.year(); }, ColumnType::Year);
+    ty!("interval", |c| { c.interval(Some(PgInterval::DayToHour), Some(2)); }, ColumnType::Interval(Some(PgInterval::DayToHour), Some(2)));
+    ty!("binary", |c| { c.binary(); }, ColumnType::Binary(1));
+    ty!("binary_len", |c| { c.binary_len(9); }, ColumnType::Binary(9));
+    ty!("var_binary", |c| { c.var_binary(33); }, ColumnType::VarBinary(StringLen::N(33)));
+    ty!("bit", |c| { c.bit(Some(5)); }, ColumnType::Bit(Some(5)));
+    ty!("varbit", |c| { c.varbit(6); }, ColumnType::VarBit(6));
+    ty!("blob", |c| { c.blob(); }, ColumnType::Blob);
+    ty!("boolean", |c| { c.boolean(); }, ColumnType::Boolean);
+    ty!("money", |c| { c.money(); }, ColumnType::Money(None));
+    ty!("money_len", |c| { c.money_len(11, 2); }, ColumnType::Money(Some((11, 2))));
+    ty!("json", |c| { c.json(); }, ColumnType::Json);
+    ty!("json_binary", |c| { c.json_binary(); }, ColumnType::JsonBinary);
+    ty!("uuid", |c| { c.uuid(); }, ColumnType::Uuid);
+    ty!("custom", |c| { c.custom(a("citext")); }, ColumnType::Custom(a("citext").into_iden()));
+    ty!("enumeration", |c| { c.enumeration(a("mood"), [a("sad"), a("ok")]); }, ColumnType::Enum { name: a("mood").into_iden(), variants: vec![a("sad").into_iden(), a("ok").into_iden()] });
+    ty!("array", |c| { c.array(ColumnType::Integer); }, ColumnType::Array(RcOrArc::new(ColumnType::Integer)));
+    ty!("vector", |c| { c.vector(Some(3)); }, ColumnType::Vector(Some(3)));
+    ty!("cidr", |c| { c.cidr(); }, ColumnType::Cidr);
+    ty!("inet", |c| { c.inet(); }, ColumnType::Inet);
+    ty!("mac_address", |c| { c.mac_address(); }, ColumnType::MacAddr);
+    ty!("ltree", |c| { c.ltree(); }, ColumnType::LTree);
+    // a second type method replaces the first
+    ty!("type-set-twice", |c| { c.string().big_integer(); }, ColumnType::BigInteger);
+    // keys and foreign keys
+    let base = || Table::create().table(a("t")).col(ColumnDef::new(a("id")).integer().not_null()).col(ColumnDef::new(a("a")).integer()).to_owned();
+    v.push(("TableCreateStatement::primary_key", Box::new(move || base().primary_key(Index::create().col(a("id")).col(a("a"))).to_owned()), Box::new(move || base().index(Index::create().primary().col(a("id")).col(a("a"))).to_owned())));
+    v.push(("ForeignKeyCreateStatement::from/to", Box::new(move || base().foreign_key(ForeignKey::create().name("fk").from(a("t"), a("a")).to(a("p"), a("id"))).to_owned()), Box::new(move || base().foreign_key(ForeignKey::create().name("fk").from_tbl(a("t")).from_col(a("a")).to_tbl(a("p")).to_col(a("id"))).to_owned())));
+    v.push(("ForeignKeyCreateStatement::from/to-2-columns", Box::new(move || base().foreign_key(ForeignKey::create().name("fk").from(a("t"), (a("a"), a("id"))).to(a("p"), (a("x"), a("y")))).to_owned()), Box::new(move || base().foreign_key(ForeignKey::create().name("fk").from_tbl(a("t")).from_col(a("a")).from_col(a("id")).to_tbl(a("p")).to_col(a("x")).to_col(a("y"))).to_owned())));
+    v
+}
+
+fn run_api_variants(rep: &Arc<Report>) -> u64 {
+    let mut n = 0;
+    for (name, via, canon) in api_variants() {
+        for d in [Dialect::Mysql, Dialect::Postgres, Dialect::Sqlite] {
+            n += 1;
+            let r = |f: &dyn Fn() -> TableCreateStatement| match catch(|| { let s = f(); match d { Dialect::Mysql => s.to_string(MysqlQueryBuilder), Dialect::Postgres => s.to_string(PostgresQueryBuilder), Dialect::Sqlite => s.to_string(SqliteQueryBuilder) } }) {
+                Ok(s) => s,
+                Err(_) => "PANIC".to_string(),
+            };
+            let (x, y) = (r(&*via), r(&*canon));
+            if x != y {
+                rep.raw_failures.inc();
+                rep.violation(Violation { key: format!("api-variant|{}|{name}", d.name()), what: format!("{} `{name}` renders {x:?} but the canonical spelling of the same declaration renders {y:?}", d.name()), case: json!({"kind": "api-variant", "dialect": d.name(), "name": name}) });
+            }
+        }
+    }
+    n
+}
+
 pub fn run(rep: &Arc<Report>) {
     let evals = Counter::new();
     let ood = Counter::new();
@@ -1095,6 +1182,8 @@ pub fn run(rep: &Arc<Report>) {
             }
         }
     }
+    let api_n = run_api_variants(rep);
+    rep.set("api_variant_comparisons", json!(api_n));
     rep.set("column_types", json!(types.len()));
     rep.set("spec_permutations", json!(perms.len()));
     rep.set("column_cases", json!(cases.len()));
@@ -1122,6 +1211,11 @@ pub fn replay(case: &serde_json::Value) -> Option<String> {
             let t = all_types().into_iter().find(|t| format!("{:?}", t) == case["type"].as_str().unwrap_or(""))?;
             let specs: Vec<CS> = case["specs"].as_array()?.iter().filter_map(|s| s.as_str().and_then(cs)).collect();
             check_column_case(d, &t, &specs).err().map(|(sig, det)| format!("{} column {:?} {:?}: [{sig}] {det}", d.name(), t, specs))
+        }
+        "api-variant" => {
+            let rep = Arc::new(Report::new("C14", "quick"));
+            run_api_variants(&rep);
+            rep.find_violation(&format!("api-variant|{}|{}", d.name(), case["name"].as_str().unwrap_or("")))
         }
         _ => {
             // tables, alter sequences and single statements: re-run the (cheap) quick sweep and look the finding up
